@@ -256,14 +256,60 @@ def _grid_argmin(v):
     return a[1], list(g[2]), i[2][0]
 
 
+def _equal_sigma_shortcuts(ctx, fi, it, rets, mu0, mu1, s0, s1):
+    """the statement allows one closed form besides the grid search: the midpoint for EQUAL sigmas.  A return of (mu0+mu1)/2 is accepted
+    under an exact equality test of the two sigmas (or a purely relative one); a test with an ABSOLUTE tolerance (numpy.isclose's
+    default atol=1e-8) calls sigmas "equal" merely because the eye is expressed in a small unit - the threshold then depends on the
+    unit, not only on mu1-mu0, s0, s1.  Returns the remaining (grid) returns."""
+    if len(rets) <= 1:
+        return rets
+    mid = (mu0 + mu1) / 2
+    rest = []
+    for o in rets:
+        if not (isinstance(o.value, Form) and o.value == mid):
+            rest.append(o)
+            continue
+        tests = [it.cond_forms.get(txt) for txt, pol in o.conds if pol]
+        verdict = None
+        for cf in tests:
+            ca = cf.single_atom() if isinstance(cf, Form) else None
+            if ca is None or ca[0] != "fn":
+                continue
+            if ca[1] == "eq" and {vkey_(x) for x in ca[2]} == {vkey_(s0), vkey_(s1)}:
+                verdict = "exact"
+            elif ca[1].split(".")[-1] in ("isclose", "allclose") and len(ca[2]) >= 2 and {vkey_(ca[2][0]), vkey_(ca[2][1])} == {vkey_(s0), vkey_(s1)}:
+                kw = dict(ca[3])
+                atol = kw.get("atol", kw.get("abs_tol", ca[2][3] if len(ca[2]) > 3 else None))
+                default_abs = ca[1].startswith("numpy.") or ca[1] in ("isclose", "allclose")
+                if atol is None:
+                    verdict = "absolute" if default_abs else "relative"
+                else:
+                    verdict = "relative" if (isinstance(atol, Form) and atol.is_zero()) else "absolute"
+        if verdict in ("exact", "relative"):
+            ctx.holds("C13.5", fi, o.node, f"{fi.qualname}: midpoint returned for equal sigmas", "the closed form of the statement (sigmas compared exactly / relatively)")
+        elif verdict == "absolute":
+            ctx.violation("C13.5", fi, o.node, f"{fi.qualname}: midpoint returned when isclose(s0, s1)",
+                          "the sigmas are compared with an absolute tolerance (numpy.isclose: atol=1e-8): for an eye expressed in a small unit (nA, uV) any two sigmas are 'equal', the midpoint "
+                          "is returned instead of the optimum and threshold and estimated BER change with the unit - they no longer depend only on mu1-mu0, s0, s1")
+        else:
+            ctx.violation("C13.5", fi, o.node, f"{fi.qualname}: midpoint returned outside the equal-sigma case", "the midpoint is the optimum only for equal sigmas; the guard of this return is not a test of s0 against s1")
+    return rest
+
+
+def vkey_(v):
+    from ..forms import vkey
+    return vkey(v)
+
+
 def rule_error_probabilities(ctx):
     pkg = ctx.pkg
     mu0, mu1, s0, s1 = S("eye_obj.mu0"), S("eye_obj.mu1"), S("eye_obj.s0"), S("eye_obj.s1")
     # ---------------- OOK threshold estimator
     fi = pkg.func("ook.THRESHOLD_EST")
     it = Interp(pkg, param_classes={"eye_obj": "eye"})
+    it.keep_cond_forms = True
     outs = it.run(fi)
-    rets = [o for o in outs if o.kind == "return"]
+    rets = _equal_sigma_shortcuts(ctx, fi, it, [o for o in outs if o.kind == "return"], mu0, mu1, s0, s1)
     ga = _grid_argmin(rets[0].value) if len(rets) == 1 else None
     if ga is not None:
         r, gargs, obj = ga
